@@ -447,6 +447,15 @@ def run_impl(case):
                 ar = arfile.ArFile(fileobj=fo)
         except Exception as e:
             return {"err": err_kind(e)}
+        # the name list an earlier caller got is its own (getnames() builds a new list; getmembers() is documented
+        # like tarfile's: it hands out the archive's own list, so that one is left alone): editing it must not
+        # change what the archive says next
+        for scribble in (ar.getnames(), ar.getnames()):
+            try:
+                scribble.clear()
+                scribble.append("scribbled-by-an-earlier-caller")
+            except Exception:
+                pass
         names = ar.getnames()
         members = ar.getmembers()
         if len(names) != len(members) or list(ar) != list(members):
